@@ -63,6 +63,19 @@ def generate(inv, T):
         w = H.Wrapper('w_cmp_%s_%s' % (short, T), T, 2 * n, T, 0, body_cmp(t, da, db, 'std::hash<%s>' % t), n_iout=8)
         ws.append(w)
         obs.append({'id': '%s [%s]' % (m, CT[T]), 'w': w.name, 'n': n, 'kind': 'fp'})
+    # hash locality: the hash of an object must not depend on memory outside the object (a hash over raw bytes with a wrong
+    # length does): two copies of the same object with different neighbouring bytes hash equally
+    def hloc(tag, t, decl, hasher, **kw):
+        body = decl + '\nstruct S { %s q; unsigned char tail; };\nconst S s1{a, 0x00}; const S s2{a, 0xFF};\niout[0] = (%s()(s1.q) == %s()(s2.q));' % (t, hasher, hasher)
+        w = H.Wrapper('w_hloc_%s_%s' % (tag, T), T, kw.get('n_in', 0), T, 0, body, n_iout=1, n_iin=kw.get('n_iin', 0))
+        ws.append(w)
+        obs.append({'id': '%s hash locality [%s]' % (kw['name'], CT[T]), 'w': w.name, 'n': 0, 'kind': 'hloc'})
+    for q in names:
+        n = inv.classes[q]['shape']
+        hloc(sanitize(q), cxx(q, T), load_arg('a', q, T, 0, n), 'std::hash<%s>' % cxx(q, T), n_in=n, name=q)
+    if T == 'f64':
+        da = 'const PhQ::Dimensions a(%s);' % ', '.join('PhQ::Dimension::%s(static_cast<int8_t>(iin[%d]))' % (d, i) for i, d in enumerate(DIMS))
+        hloc('Dimensions', 'PhQ::Dimensions', da, 'std::hash<PhQ::Dimensions>', n_iin=7, name='Dimensions')
     if T == 'f64':
         # integer-valued types: Dimensions (7 x int8) and the seven Dimension::X (1 x int8)
         da = 'const PhQ::Dimensions a(%s);' % ', '.join('PhQ::Dimension::%s(static_cast<int8_t>(iin[%d]))' % (d, i) for i, d in enumerate(DIMS))
@@ -98,6 +111,25 @@ def worker(ctx):
 
 
 def one(ctx, T, d):
+    if d['kind'] == 'hloc':
+        w = ctx.byname[d['w']]
+        r = ctx.result(d['w'])
+        o = ctx.ob(d['id'], 'hash-locality', 'BIT', '%s: two copies of the same object placed next to different bytes hash equally (the hash reads nothing outside the object)' % d['id'])
+        o.key = o.oid
+        if r is None or r.error or r.iout[0] is None:
+            o.reason = ctx.why_missing(d['w'])
+            return
+
+        def rp(xs, ks=()):
+            out, io = ctx.unit.call_native(w, xs, ks)
+            return io[0] != 1, 'inputs=%s %s: the hashes of two copies of the same object differ when the byte after the object differs' % ([core.hexf(x) for x in xs], list(ks))
+        rp.case = {'kind': 'values', 'impl': w.name, 'expected_out': [], 'expected_iout': [1]}
+        it = modes.Bit()
+        one_ = tm.ic('i64', 1)
+        o.syntactic = r.iout[0] is one_
+        o.hash = None if o.syntactic else 'hloc:' + d['id']
+        ctx.decide(o, [it.ev(r.iout[0]) != it.ev(one_)] if not o.syntactic else [z3.BoolVal(False)], w, rp, grid=False)
+        return
     if True:
         w = ctx.byname[d['w']]
         r = ctx.result(d['w'])
